@@ -1,22 +1,23 @@
 (** Property C01 -- the decoder reproduces the original data for every valid frame.
-    The end-to-end statement "decode (frame) = the data a conforming compressor started from" needs a formal
-    specification of the whole format (FSE and Huffman bit streams included) and is NOT proved; this property is
-    claimed at level translation_validation: the executable decoder model below is run against the implementation
-    and against the original data on every run.  What IS proved, for all inputs, about that model:
+    The specification side is the WRITER of the format; the theorems say the decoder inverts it, layer by layer:
     - sequence execution (with or without a dictionary) is the reference LZ77 semantics of RFC 8878 3.1.1.4/5 --
       literal run, repeat-offset rules, byte-wise copy from [off] back -- and every sequence read from a bit stream
       meets the hypothesis of that theorem;
     - the chunked copy of the implementation equals the byte-wise copy; every copied byte equals the byte [off] back;
-    - the repeat-offset rules are the RFC's table (C14);
-    - raw and RLE blocks regenerate their content; block headers are read as the RFC lays them out (C14);
-    - the window buffer underneath is a byte queue for every operation sequence (C04);
-    - the decoder inverts the format's block writer (last theorem of this file), and at the level of the sequences
-      section any combination of the four table modes round-trips (C12_sequences_section_with_any_table_modes). *)
+    - the repeat-offset rules are the RFC's table (C14); raw and RLE blocks regenerate their content;
+    - a compressed block written from any literals in any layout the literals decoder reads back (all of them: C13) and
+      any coded sequences under any combination of the four table modes (C12) decodes to exactly those literals and
+      sequences ([C01_compressed_block_any_layout_any_modes], [C01_decoder_inverts_the_block_writer]);
+    - a whole frame is decoded block by block ([C01_frame_is_decoded_block_by_block]);
+    - the window buffer underneath is a byte queue for every operation sequence (C04).
+    That the frames other compressors emit are frames of this writer is not a theorem: on every run the executable
+    decoder model and the implementation decode libzstd's and hand-built frames and are compared with the original. *)
 Require Import Zrs.lib.RsPrelude Zrs.gen.Generated Zrs.model.BitIO Zrs.model.FseDec Zrs.model.HufDec Zrs.model.BlockDec.
 Require Import Zrs.proofs.C06_Drain Zrs.proofs.C05_Block Zrs.proofs.C09_Lz Zrs.proofs.C01_Exec Zrs.proofs.C14_Headers
   Zrs.proofs.C17_Matcher Zrs.proofs.C02_Roundtrip.
 Require Import Zrs.model.Headers Zrs.model.SeqSection Zrs.model.BlockEnc Zrs.model.LitEnc Zrs.proofs.C12_SeqStream Zrs.proofs.C02_BlockGen Zrs.proofs.C02_HufSide.
 Require Import Zrs.model.BitStream Zrs.model.SeqEnc Zrs.proofs.C12_SeqStreamR Zrs.proofs.C12_Modes Zrs.proofs.C02_Block Zrs.proofs.C01_BlockModes.
+Require Import Zrs.model.FrameDec Zrs.model.FrameEnc Zrs.proofs.C01_Frame.
 Open Scope Z_scope.
 
 Theorem C01_sequence_execution_is_the_reference : forall seqs lits buf hist buf' hist',
@@ -113,6 +114,40 @@ Theorem C01_compressed_block_any_layout_any_modes :
       ROk {| sc_huf := ht'; sc_fse := scr Dll rll Dml rml Dof rof; sc_buf := buf; sc_hist := hist |}.
 Proof. exact block_decodes_modes. Qed.
 
+(** *** whole frames: the block loop composes the blocks
+
+    A frame assembled from a header the decoder accepts and ANY non-empty list of blocks -- raw, RLE or compressed, each
+    with the format's block header, the last one flagged, optionally followed by a checksum -- is decoded block by block:
+    the scratch space at the end is the one obtained by running the blocks' content decoders in order
+    ([items_run]; for a raw block an append, for an RLE block a run, for a compressed block [decompress_block], whose
+    result the block theorems above determine), the frame is finished, the checksum bytes are what was read, and the
+    bytes after the frame are left unread. *)
+Theorem C01_frame_is_decoded_block_by_block : forall d hdr d1 ev s items body tail rest sc',
+  fdec_reset d hdr = ROk (d1, [], ev) -> fd_state d1 = Some s ->
+  items <> [] -> Forall item_ok items -> items_bytes items = ROk body -> items_run (fr_scratch s) items = ROk sc' ->
+  (if checksum_flag s then exists ck, tail = ck ++ rest /\ length ck = 4%nat else tail = rest) ->
+  fdec_reset d (hdr ++ body ++ tail) = ROk (d1, body ++ tail, ev) /\
+  exists d2 s', fdec_decode_blocks d1 (body ++ tail) SAll = ROk (d2, rest, true) /\ fd_state d2 = Some s' /\
+    fr_scratch s' = sc' /\ fr_header s' = fr_header s /\ fr_blocks s' = fr_blocks s + Z.of_nat (length items) /\
+    (checksum_flag s = true -> exists ck, tail = ck ++ rest /\ length ck = 4%nat /\ fr_checksum s' = Some (le_val ck)).
+Proof. exact frame_composes. Qed.
+
+Theorem C01_what_each_kind_of_block_does :
+  (forall sc d, item_run sc {| bi_ty := 0; bi_size := length d; bi_payload := d |} = ROk (sc_push_raw sc d)) /\
+  (forall sc b n, item_run sc {| bi_ty := 1; bi_size := n; bi_payload := [b] |} = ROk (sc_push_raw sc (repeat_z b n))) /\
+  (forall sc body, item_run sc {| bi_ty := 2; bi_size := length body; bi_payload := body |} = decompress_block (zlen body) sc body).
+Proof. split; [exact item_run_raw|]. split; [exact item_run_rle|exact item_run_compressed]. Qed.
+
+(** non-vacuity: the frame 28 B5 2F FD | 20 05 | raw block "AB" | RLE block 3 x "C" (last) decodes to ABCCC *)
+Example C01_frame_example :
+  match fdec_decode_all fdec_new [40; 181; 47; 253; 32; 5; 16; 0; 0; 65; 66; 27; 0; 0; 67] 10 with
+  | ROk (_, out) => out = [65; 66; 67; 67; 67]
+  | _ => False
+  end.
+Proof. vm_compute. reflexivity. Qed.
+
+Print Assumptions C01_frame_is_decoded_block_by_block.
+Print Assumptions C01_what_each_kind_of_block_does.
 Print Assumptions C01_compressed_block_any_layout_any_modes.
 Print Assumptions C01_decoder_inverts_the_block_writer.
 Print Assumptions C01_sequence_execution_is_the_reference.
